@@ -58,6 +58,17 @@ def run(ctx, rep):
             rep.finding(R0, f'C17.R0/{case}', cons[0], 'Tableau verdict properties', f'{case}: {detail}')
     rep.floor('C17.R0', 'flag combinations', len(res), 48)
 
+    R6 = rep.rule('C17.R6', 'the build timer accumulates: StopWatch folded as a state machine over every start/stop/reset/enter/exit sequence '
+                            'up to the bound -- elapsed_ms() is the sum of all intervals since the last reset (what build_timeout is compared with)')
+    from .. import timingfold
+    res, cons = timingfold.fold_stopwatch(m, depth=5 if rep.tier == 'thorough' else 4)
+    rep.consult(*cons)
+    for ok, case, detail in res:
+        rep.instance(R6, ok=ok, nontrivial=case)
+        if not ok:
+            rep.finding(R6, f'C17.R6/{case}', cons[0].split(' ')[0], 'tools.timing.StopWatch', f'sequence [{case}]: {detail}')
+    rep.floor('C17.R6', 'operation sequences', len(res), 780)
+
     R1 = rep.rule('C17.R1', 'who-may-write per flag bit, with the dominating condition of each write (reviewed table)')
     writes = lifecycle.flag_writes(m)
     seen = set()
